@@ -4,6 +4,7 @@ import RattrModel.Imports
 import RattrModel.Spec.Allowed
 import RattrModel.FollowConfig
 import RattrModel.ImportEdges
+import RattrModel.ImportBlocks
 
 namespace Rattr.Driver.C12
 open Lean Rattr Rattr.Driver Rattr.Imports
@@ -115,6 +116,40 @@ def handleProject (j : Json) : R Json := do
       ("wf", Json.bool (Edges.wf src s)),
       ("same", Json.bool (decide (Edges.impOf ex src s = Edges.pyImpOf ex src s)))]))
 
+/-! ### optional `blocks` per file of `project`: the model of `register_stmts` (RattrModel/ImportBlocks.lean) -/
+
+mutual
+partial def parseBlk (j : Json) : R (Blocks.Blk Nat) := do
+  match j.getNat? with
+  | .ok n => return .leaf n
+  | .error _ =>
+    let k ← asStr (← field j "k")
+    let part := fun (key : String) => parseBlkL (fieldD j key (Json.arr #[]))
+    match k with
+    | "if" => return .ifS (← part "a") (← part "b")
+    | "loop" => return .loopS (← part "a") (← part "b")
+    | "with" => return .withS (← part "a")
+    | "try" => return .tryS (← part "a") (← part "b") (← part "c") (← part "d")
+    | "opaque" => return .noVisit (← part "a")
+    | _ => throw s!"unknown block kind {k}"
+partial def parseBlkL (j : Json) : R (List (Blocks.Blk Nat)) := do (← asArr j).mapM parseBlk
+end
+
+/-- Per file: `null`, or the import symbols (numbered in source order) `register_stmts` reaches, in its
+order (`reg`), all of them in source order (`written`), and the decidable hypotheses of the block theorems. -/
+def handleBlocks (j : Json) : R Json := do
+  let outs ← (← asArr (← field j "files")).mapM fun fj => do
+    match fieldD fj "blocks" Json.null with
+    | .null => pure Json.null
+    | b => do
+      let t ← parseBlkL b
+      pure (Json.mkObj [
+        ("reg", jList ((Blocks.regL t).map fun (n : Nat) => Json.num (JsonNumber.fromNat n))),
+        ("written", jList ((Blocks.writtenL t).map fun (n : Nat) => Json.num (JsonNumber.fromNat n))),
+        ("descended", Json.bool (Blocks.descendedL t)),
+        ("tryFree", Json.bool (Blocks.tryFreeL t))])
+  return jList outs
+
 /-- op `imports`: the model of the import-following stage, the executable spec closure and the
 decidable hypotheses of the C12 theorems, on one module graph. `flags` are the bits the running
 implementation reports (`Arguments.follow_*_imports`); the spec uses the documented meaning of
@@ -149,6 +184,9 @@ def handle (payload : Json) : R Json := do
   let edges ← match fieldD payload "project" Json.null with
     | .null => pure Json.null
     | p => handleProject p
+  let blockOrders ← match fieldD payload "project" Json.null with
+    | .null => pure Json.null
+    | p => handleBlocks p
   let bound := fuelBound g target
   let fuel := match (fieldD payload "fuel" Json.null).getNat? with
     | .ok n => n
@@ -172,6 +210,7 @@ def handle (payload : Json) : R Json := do
     ("resolve", jList (target.map fun i => allowedJson (Resolve.importAllowed g fl keys i))),
     ("config", config),
     ("edges", edges),
+    ("blockOrders", blockOrders),
     ("realNodup", Json.bool (decide (realFiles g real st.analysed).Nodup)),
     ("hyps", Json.mkObj [
       ("sectionsAgree", if secs.isEmpty then Json.null else Json.bool (decide (Spec.SectionsAgree g sec))),
